@@ -61,6 +61,9 @@ def run(ctx):
         if recs and len(ctx.cov["samples"]) < 4:
             r = recs[len(recs) // 3]
             ctx.sample({k: v for k, v in r.items() if k not in ("text", "handed")})
+    # spec growth (not part of C17's verdict): the whole HTTP exchange as a step machine, against real listeners
+    from checks import growth
+    growth.safely(ctx, growth.run_http_layer)
 
 
 def replay(ctx, path):
